@@ -10,7 +10,7 @@ generations of children.  One action per critical section / blocking operation:
 | thread  | action            | code                                                                                   |
 |---------|-------------------|----------------------------------------------------------------------------------------|
 | Run     | `runEnter`        | `lc.Started()`, `runCtx := WithCancel(ctx)`, `r.ctx = runCtx` under `runnablesMu`, `Transition(Booting)` |
-|         | `runBoot res`     | `boot(runCtx)` under `runnablesMu` (`getConfig()` calls the callback: `res`); launches one goroutine per entry |
+|         | `runBoot res`, `runBootFail` | `boot(runCtx)` under `runnablesMu` (`getConfig()` calls the callback: `res`); launches one goroutine per entry; no configuration: `setStateError()` and return, a separate step |
 |         | `runToRunning`    | `Transition(Running)`; on failure `setStateError()` and return                          |
 |         | `runSelCtx` / `runSelStop` / `runSelErr` | the three arms of the `select`                                  |
 |         | `runToStopping`   | `TransitionIfCurrentState(Running, Stopping)`                                          |
@@ -61,7 +61,7 @@ structure Gen where
   deriving DecidableEq, Repr
 
 inductive RunPc where
-  | idle | entered | booted | select | afterSelect | toStop | stopping (pending : List Nat) | stopped
+  | idle | entered | bootFailed | booted | select | afterSelect | toStop | stopping (pending : List Nat) | stopped
   | failToStop (c : Nat)                             -- the serverErrors arm: setStateError() done, before stopAllRunnables
   | failStopping (pending : List Nat) (c : Nat)      -- ... its stopAllRunnables, then return
   | returned (r : RRet)
@@ -98,7 +98,7 @@ structure St where
   deriving DecidableEq, Repr
 
 inductive Act where
-  | runEnter | runBoot (res : CbRes) | runToRunning | runSelCtx | runSelStop | runSelErr
+  | runEnter | runBoot (res : CbRes) | runBootFail | runToRunning | runSelCtx | runSelStop | runSelErr
   | runToStopping | runStopBegin | runStopEnd | runFinish
   | rlEnter | rlCallback (res : CbRes) | rlAfterCb | rlDecide | rlStopBegin | rlStopEnd | rlSetConfig | rlBoot
   | rlChildReload | rlFinish
@@ -148,7 +148,9 @@ def step (s : St) : Act → Option St
     match s.cfg, res with
     | some cfg, _ => some { boot s true cfg with run := .booted }
     | none, .ok cfg => some { boot { s with cfg := some cfg } true cfg with run := .booted }
-    | none, _ => some { s with fsm := .error, run := .returned .other, runCancelled := true }
+    | none, _ => some { s with run := .bootFailed }     -- the callback's answer is seen; `setStateError()` comes later
+  | .runBootFail =>
+    if s.run != .bootFailed then none else some { s with fsm := .error, run := .returned .other, runCancelled := true }
   | .runToRunning =>
     if s.run != .booted then none else
     match tr s .running with
